@@ -165,6 +165,7 @@ type cell struct {
 	req      *dns.Msg // the request as parsed from wire
 	boundary string   // name of the boundary group, or ""
 	phase    string   // "" for the grid, phasePooled for the shared-cloner histories
+	note     map[string]any
 	wire     []byte
 	form     reqForm
 	sh       shape
@@ -173,11 +174,16 @@ type cell struct {
 }
 
 func (c *cell) witness() map[string]any {
-	return map[string]any{
+	w := map[string]any{
 		"cell": c.idx, "path": c.path.name, "configured_udp_max": c.path.cfg, "request_edns": c.form,
 		"handler_response": c.sh, "qname": c.sh.qname(), "request_hex": fmt.Sprintf("%x", c.wire),
 		"limit": c.path.limit(c.form.Adv), "boundary_group": c.boundary, "phase": c.phase,
 	}
+	for k, v := range c.note {
+		w[k] = v
+	}
+
+	return w
 }
 
 // proto is a cell before shapes and indexes are assigned.
